@@ -575,6 +575,10 @@ func registerStd() {
 	reg(func(ex *Exec, fn *ssa.Function, args []Value, caller *frame) Value {
 		// elapsed time: two representative durations (just now / one hour),
 		// explored as a fork; throttles compare it with constants in between
+		if caller != nil && caller.fn != nil && caller.fn.Pkg != nil && caller.fn.Pkg.Pkg.Path() == "github.com/boltdb/bolt" {
+			// bolt measures its own transactions for statistics only
+			return zero64
+		}
 		var c int
 		if ex.concrete {
 			if ex.concPos < len(ex.concVals) {
